@@ -293,7 +293,7 @@ func runC05(c *run.Ctx) {
 	c.MinNontriv = pairs / 2
 	c.Set("type_value_pairs", pairs)
 	// hostile values inside generated nested documents
-	nested := c.N(300, 30000)
+	nested := c.N(800, 30000)
 	for i := 0; i < nested && !c.TooMany(); i++ {
 		r := c.Rand(i)
 		kind := []string{"iface", "any", "reflect", "mixed-any", "mixed-reflect"}[i%5]
